@@ -163,6 +163,9 @@ def advance (v : UpdVariant) (e0 : Env) (c : CState) (r : Request) (ph : Phase) 
     (match kindOf r with
      | .update n =>
        -- defaults are read from the object as it is now (a deleted object was stopped)
+       -- (an approximation: the three unlocked reads - Listen, Upstream, Enabled - are one block; a
+       -- reader overtaken by two complete updates between two of them sees a combination that no
+       -- state of this model has)
        let cur := (c.live n ep).getD ((c.dead.lookup (n, ep)).getD { obj with enabled := false })
        (match decodeProxy ⟨cur.name, cur.listen, cur.upstream, cur.enabled⟩ r.body with
         | none => (c, .done (errResp .badRequestBody))
